@@ -39,6 +39,8 @@ func TestCheck(t *testing.T) {
 	run.Rule("every base operation (all selection trees of the schema below depth/width/size bounds, argument menus) x every decoration " +
 		"(alias, self-alias, in-set duplicate, contiguous run wrapped in inline/named/nested fragments without / with the same / with the interface type condition, " +
 		"a fragment on the interface / union with one nested type-conditioned fragment per implementer under a concrete parent type (inline / named, both orders), " +
+		"a custom executable directive @tag at every kind of site (field, inline fragment, fragment spread, operation) with a literal / a variable used only there / a variable shared with a field argument, each variable also named like a canonical name and with a second spelling, " +
+		"the same literal at two argument positions of similar types ([T] vs [T!], [[T]] vs [[T]!], [T]! vs [T!]!, T vs T!, [T] vs [T]!, T vs [T], Int vs Float, String vs ID, [In] vs [In!]) in both orders, " +
 		"__typename, @skip/@include literal/variable/defaulted variable with both values, argument value menus incl. null, list coercion, nested input objects, " +
 		"written as literal / variable / variable named like a generated one / defaulted variable / defaulted variable overridden by a value or by null / literal mixing variables, " +
 		"omitted optional argument, unused variable, variable renaming, operation name) at every applicable site, all combinations of <=1 (quick) / <=2 (thorough, smaller bases) decorations; " +
